@@ -325,10 +325,21 @@ Proof.
   - destruct (h_value h); auto.
 Qed.
 
-Lemma cut_top_header c h r : (c = colon_b \/ c = comma_b) -> wf_header h = true ->
+(* a header as the grammar can express it: the name may be empty *)
+Definition lwf (h : header) : bool :=
+  forallb name_char (h_name h) && match h_value h with Some v => forallb not_rbracket v | None => true end.
+Lemma lwf_spec h : lwf h = true ->
+  forallb name_char (h_name h) = true /\ match h_value h with Some v => forallb not_rbracket v = true | None => True end.
+Proof. unfold lwf. rewrite andb_true_iff. intros [Hn Hv]. split; [assumption|]. destruct (h_value h); auto. Qed.
+Lemma wf_lwf h : wf_header h = true -> lwf h = true.
+Proof. unfold wf_header, lwf. rewrite !andb_true_iff. tauto. Qed.
+Lemma forallb_wf_lwf l : forallb wf_header l = true -> forallb lwf l = true.
+Proof. rewrite !forallb_forall. intros H x Hx. apply wf_lwf. auto. Qed.
+
+Lemma cut_top_header c h r : (c = colon_b \/ c = comma_b) -> lwf h = true ->
   cut_top c false (print_header h ++ r) = prepend (print_header h) (cut_top c false r).
 Proof.
-  intros Hc Hwf. destruct (wf_header_spec h Hwf) as (_ & Hn & Hv). unfold print_header.
+  intros Hc Hwf. destruct (lwf_spec h Hwf) as (Hn & Hv). unfold print_header.
   set (o := if h_optional h then bs "?" else []).
   assert (Ho : forallb (plain c) o = true) by (unfold o; destruct (h_optional h), Hc as [-> | ->]; reflexivity).
   rewrite <- !app_assoc. rewrite (cut_top_plain c o) by assumption.
@@ -344,7 +355,7 @@ Proof.
   - cbn [app]. rewrite !prepend_app. now rewrite app_nil_r.
 Qed.
 
-Lemma cut_top_headers hs r : forallb wf_header hs = true ->
+Lemma cut_top_headers hs r : forallb lwf hs = true ->
   cut_top ":"%byte false (join comma (map print_header hs) ++ r)
   = prepend (join comma (map print_header hs)) (cut_top ":"%byte false r).
 Proof.
@@ -381,10 +392,10 @@ Proof.
     cbn [rev]. now rewrite <- app_assoc.
 Qed.
 
-Lemma split_top_header h r cur : wf_header h = true ->
+Lemma split_top_header h r cur : lwf h = true ->
   split_top ","%byte false (print_header h ++ r) cur = split_top ","%byte false r (rev (print_header h) ++ cur).
 Proof.
-  intros Hwf. destruct (wf_header_spec h Hwf) as (_ & Hn & Hv). unfold print_header.
+  intros Hwf. destruct (lwf_spec h Hwf) as (Hn & Hv). unfold print_header.
   set (o := if h_optional h then bs "?" else []).
   assert (Ho : forallb (plain ","%byte) o = true) by (unfold o; destruct (h_optional h); reflexivity).
   rewrite <- !app_assoc. rewrite (split_top_plain ","%byte o) by assumption.
@@ -401,7 +412,7 @@ Qed.
 Lemma revl_rev' l : revl l = rev l.
 Proof. unfold revl. symmetry. apply rev_alt. Qed.
 
-Lemma split_top_headers hs : forall h, forallb wf_header (h :: hs) = true ->
+Lemma split_top_headers hs : forall h, forallb lwf (h :: hs) = true ->
   split_top ","%byte false (join comma (map print_header (h :: hs))) [] = map print_header (h :: hs).
 Proof.
   induction hs as [|g hs IH]; intros h H; cbn in H; apply andb_true_iff in H as [Hh Hs].
@@ -446,24 +457,30 @@ Proof.
   - rewrite span_app by (assumption || reflexivity). reflexivity.
 Qed.
 
-Lemma rd_header_print h : wf_header h = true -> rd_header (print_header h) = Some h.
+Lemma rd_header_print h : lwf h = true -> rd_header (print_header h) = Some h.
 Proof.
-  intros Hwf. destruct (wf_header_spec h Hwf) as (Hne & Hn & Hv).
+  intros Hwf. destruct (lwf_spec h Hwf) as (Hn & Hv).
   destruct h as [o name value]. cbn [h_optional h_name h_value] in *.
   unfold print_header. cbn [h_optional h_name h_value]. destruct o.
   - cbn [bs bs_to app]. rewrite rd_header_q. now apply rd_body_print.
-  - cbn [app]. destruct name as [|c name]; [congruence|].
-    pose proof Hn as Hn'. cbn in Hn'. apply andb_true_iff in Hn' as [Hc _].
-    assert (Hq : beqb c "?"%byte = false) by (apply beqb_neq; intros ->; discriminate).
-    change ((c :: name) ++ match value with Some v => bs "=[" ++ v ++ bs "]" | None => [] end)
-      with (c :: (name ++ match value with Some v => bs "=[" ++ v ++ bs "]" | None => [] end)).
-    rewrite rd_header_nq by assumption.
-    change (c :: (name ++ match value with Some v => bs "=[" ++ v ++ bs "]" | None => [] end))
-      with ((c :: name) ++ match value with Some v => bs "=[" ++ v ++ bs "]" | None => [] end).
-    now apply rd_body_print.
+  - cbn [app]. destruct name as [|c name].
+    + (* empty name *) destruct value as [v|].
+      * cbn [app]. change (bs "=[" ++ v ++ bs "]") with ("="%byte :: ("["%byte :: v ++ bs "]")).
+        rewrite rd_header_nq by reflexivity.
+        change ("="%byte :: ("["%byte :: v ++ bs "]")) with ([] ++ bs "=[" ++ v ++ bs "]").
+        now apply (rd_body_print false [] (Some v)).
+      * reflexivity.
+    + pose proof Hn as Hn'. cbn in Hn'. apply andb_true_iff in Hn' as [Hc _].
+      assert (Hq : beqb c "?"%byte = false) by (apply beqb_neq; intros ->; discriminate).
+      change ((c :: name) ++ match value with Some v => bs "=[" ++ v ++ bs "]" | None => [] end)
+        with (c :: (name ++ match value with Some v => bs "=[" ++ v ++ bs "]" | None => [] end)).
+      rewrite rd_header_nq by assumption.
+      change (c :: (name ++ match value with Some v => bs "=[" ++ v ++ bs "]" | None => [] end))
+        with ((c :: name) ++ match value with Some v => bs "=[" ++ v ++ bs "]" | None => [] end).
+      now apply rd_body_print.
 Qed.
 
-Lemma rd_headers_print h hs : forallb wf_header (h :: hs) = true ->
+Lemma rd_headers_print h hs : forallb lwf (h :: hs) = true ->
   rd_headers (join comma (map print_header (h :: hs))) = Some (h :: hs).
 Proof.
   intros H. unfold rd_headers. rewrite split_top_headers by assumption.
@@ -484,13 +501,13 @@ Proof.
   unfold spec_http, print_http_sig. cbn [hs_version hs_horder hs_habsent hs_expsw].
   assert (C1 : forall rest, cut_top ":"%byte false (print_http_version ver ++ colon ++ rest) = Some (print_http_version ver, rest))
     by (intros rest; destruct ver; try discriminate; reflexivity).
-  rewrite C1. rewrite cut_top_headers by assumption. cbn [colon bs bs_to app]. rewrite cut_top_here. cbn [prepend]. rewrite app_nil_r.
-  rewrite cut_top_headers by assumption. rewrite cut_top_here. cbn [prepend]. rewrite app_nil_r.
+  rewrite C1. rewrite cut_top_headers by (now apply forallb_wf_lwf). cbn [colon bs bs_to app]. rewrite cut_top_here. cbn [prepend]. rewrite app_nil_r.
+  rewrite cut_top_headers by (now apply forallb_wf_lwf). rewrite cut_top_here. cbn [prepend]. rewrite app_nil_r.
   assert (V : rd_http_version (print_http_version ver) = Some ver) by (destruct ver; try discriminate; reflexivity).
-  rewrite V. destruct horder as [|h horder]; [discriminate|]. rewrite rd_headers_print by assumption.
+  rewrite V. destruct horder as [|h horder]; [discriminate|]. rewrite rd_headers_print by (now apply forallb_wf_lwf).
   destruct habsent as [|a habsent].
   - reflexivity.
-  - rewrite rd_headers_print by assumption. rewrite filter_named_wf by assumption. reflexivity.
+  - rewrite rd_headers_print by (now apply forallb_wf_lwf). rewrite filter_named_wf by assumption. reflexivity.
 Qed.
 
 Theorem canonical_http_iff l : canonical_http l = true <-> exists s, wf_http s = true /\ print_http_sig s = l.
